@@ -26,6 +26,7 @@ type GenOpts struct {
 	RealCrypto bool
 	MinFaulty int // at least this many faulty replicas (bounded by f)
 	ActorWeights map[int]int // overrides the default weights of actor action kinds
+	CutPrefer []int // GenLagSteps: stack indices that are preferably the ones cut off (e.g. members of a later quorum)
 }
 
 var AllRules = []string{rules.NameChainedHotStuff, rules.NameSimpleHotStuff, rules.NameFastHotStuff}
@@ -206,7 +207,12 @@ func GenLagSteps(rt *rapid.T, cfg Config, o GenOpts) []Step {
 		} else {
 			// a minority of at most f replicas is cut off, the rest stays together and can go on
 			nst := cfg.N + len(cfg.Twins)
-			cut := rapid.SliceOfNDistinct(rapid.IntRange(0, nst-1), 1, max(1, hotstuff.NumFaulty(cfg.N)), func(i int) int { return i }).Draw(rt, "cut")
+			var cut []int
+			if len(o.CutPrefer) > 0 && rapid.IntRange(0, 2).Draw(rt, "cutpref") > 0 {
+				cut = []int{o.CutPrefer[rapid.IntRange(0, len(o.CutPrefer)-1).Draw(rt, "cutwho")]}
+			} else {
+				cut = rapid.SliceOfNDistinct(rapid.IntRange(0, nst-1), 1, max(1, hotstuff.NumFaulty(cfg.N)), func(i int) int { return i }).Draw(rt, "cut")
+			}
 			code, pow := 0, 1
 			for i := 0; i < nst; i++ {
 				if contains(cut, i) {
@@ -246,8 +252,47 @@ func GenLagSteps(rt *rapid.T, cfg Config, o GenOpts) []Step {
 // GenSchedule draws either an unstructured schedule (GenSteps) or, for about a quarter of the cases without a per-view
 // scenario, one shaped to make replicas fall behind and catch up (GenLagSteps).
 func GenSchedule(rt *rapid.T, cfg Config, o GenOpts) []Step {
-	if len(cfg.ByView) == 0 && rapid.IntRange(0, 3).Draw(rt, "shape") == 0 {
-		return GenLagSteps(rt, cfg, o)
+	if len(cfg.ByView) == 0 {
+		switch rapid.IntRange(0, 7).Draw(rt, "shape") {
+		case 0, 1:
+			return GenLagSteps(rt, cfg, o)
+		case 2, 3:
+			return GenDeepLagSteps(rt, cfg, o)
+		}
 	}
 	return GenSteps(rt, cfg, o)
+}
+
+// GenDeepLagSteps: one replica (preferably of o.CutPrefer) is cut off for many views while the others go on, everything
+// that crossed the partition is usually lost, then the network heals: the replica returns far behind the others, missing
+// the blocks in between.
+func GenDeepLagSteps(rt *rapid.T, cfg Config, o GenOpts) []Step {
+	var steps []Step
+	for i, n := 0, rapid.IntRange(0, 3).Draw(rt, "warm"); i < n; i++ {
+		steps = append(steps, Step{K: KBurst, C: rapid.IntRange(0, 5).Draw(rt, "rounds")})
+	}
+	nst := cfg.N + len(cfg.Twins)
+	who := rapid.IntRange(0, nst-1).Draw(rt, "cutwho")
+	if len(o.CutPrefer) > 0 {
+		who = o.CutPrefer[mod(who, len(o.CutPrefer))]
+	}
+	code := 1
+	for i := 0; i < who; i++ {
+		code *= 3
+	}
+	steps = append(steps, Step{K: KPartition, A: code})
+	for i, n := 0, rapid.IntRange(3, 16).Draw(rt, "rounds-apart"); i < n; i++ {
+		if rapid.IntRange(0, 1).Draw(rt, "to") == 0 {
+			steps = append(steps, Step{K: KTimeoutPart, B: 0})
+		}
+		steps = append(steps, Step{K: KBurst, C: 5})
+	}
+	if rapid.IntRange(0, 4).Draw(rt, "lose") > 0 {
+		steps = append(steps, Step{K: KDropCross})
+	}
+	steps = append(steps, Step{K: KHeal})
+	if rapid.IntRange(0, 1).Draw(rt, "after") == 0 {
+		steps = append(steps, Step{K: KBurst, C: rapid.IntRange(0, 2).Draw(rt, "rounds")})
+	}
+	return steps
 }
